@@ -344,12 +344,13 @@ def residuals(o, K, B, vals, vecs, cls=None):
 
 def certificate(o, sp_scaled, vals):
     """ids of the spectrum matched to the returned values, in returned order (a hint; SolverOK and the
-    value clause of the trace specification decide whether it is acceptable)"""
+    value clause of the trace specification decide whether it is acceptable).  Monotone matching: the
+    returned values, taken in ascending mu, are matched to ascending ids, each to the nearest id that is
+    still free and leaves enough ids for the rest (for a complete list this is matching by rank; a greedy
+    nearest-first matching in returned order mis-assigned dense clusters of tiny mu: a recorded false alarm)."""
     mu = np.array([float(x) for x in sp_scaled])
-    scale = max(1e-300, float(np.max(np.abs(mu)))) if len(mu) else 1.0
-    used = np.zeros(len(mu), dtype=bool)
-    ids = []
     lbfam = o["api"] in LB_APIS
+    ms = []
     for z in vals:
         z = complex(z)
         with np.errstate(all="ignore"):
@@ -358,15 +359,20 @@ def certificate(o, sp_scaled, vals):
             else:
                 w2 = z * z
                 m = (1.0 / w2).real if w2 != 0 else float("nan")
-        if m != m or used.all():
+        if m != m:
             return []
-        d = np.abs(mu - m)
-        d[used] = np.inf
-        best = float(np.min(d))
-        cand = np.nonzero(d <= best + 1e-10 * scale)[0]      # ties only (well inside the 2^-30 of the value clause)
-        j = int(cand.min() if lbfam else cand.max())
-        used[j] = True
-        ids.append(j + 1)
+        ms.append(m)
+    if len(ms) > len(mu):
+        return []
+    ids = [0] * len(ms)
+    j = 0
+    order = sorted(range(len(ms)), key=lambda c: ms[c])
+    for r, c in enumerate(order):
+        hi = len(mu) - (len(ms) - r)            # last id that leaves room for the remaining values
+        seg = np.abs(mu[j:hi + 1] - ms[c])
+        k = j + int(np.argmin(seg))             # leftmost nearest
+        ids[c] = k + 1
+        j = k + 1
     return ids
 
 
@@ -422,6 +428,61 @@ def lattice_events(impl, family, tasks, nproc=8):
     with mp.get_context("fork").Pool(nproc) as pool:
         parts = pool.map(_lattice_chunk, ranges)
     return [e for part in parts for e in part]
+
+
+def _group_worker(i):
+    """one direction-B group: matrices of a seeded Panel definition / random pair, its measured spectrum, and
+    every requested call (all scales, histories, container forms)"""
+    impl, family, spec = _FORK["impl"], _FORK["family"], _FORK["specs"][i]
+    gen, excluded, events = spec["gen"], collections.Counter(), []
+    gc.freeze()
+    panel_def = gen.get("def")
+    try:
+        K, B = gen_matrices(dict(gen, scale=1.0))
+    except Exception as ex:
+        excluded["definition rejected by the package: %s" % type(ex).__name__] += 1
+        return events, excluded
+    if spec["maxdof"] is not None and K.shape[0] > spec["maxdof"]:
+        return events, excluded
+    cls = classify(K, B)
+    try:
+        sp = reference_spectrum(K, B, cls)
+    except np.linalg.LinAlgError:
+        excluded["K not positive definite on its active amplitudes"] += 1
+        return events, excluded
+    if not sp:
+        excluded["no active amplitude"] += 1
+        return events, excluded
+    if family == "lb" and any(abs(float(x) - 1.0) < 1e-3 for x in sp):
+        excluded["reversed reference load within 1e-3 of critical (KG - K singular)"] += 1
+        return events, excluded
+    if family == "lb" and any(abs(float(x) * sc + 1.0) < 1e-6 for x in sp for sc in (1, 2, 0.5)):
+        excluded["reference load within 1e-6 of critical (Cayley Ritz value 0, ARPACK purification divides by it)"] += 1
+        return events, excluded
+    if family == "freq" and min(sp) < 0:
+        excluded["mass matrix not positive semi-definite on the active amplitudes"] += 1
+        return events, excluded
+    for o in spec["opts"]:
+        o = dict(o)
+        hist, hseed = o.pop("hist", None), o.pop("hseed", 0)
+        for s in o.pop("scales", [Fraction(1)]):
+            prob = dict(n=K.shape[0], cls=cls, sp=sp, s=s)
+            g = dict(gen, scale=float(s), group="%s-s%s" % (gen["group"], s), form=FORMS[(i + len(events)) % 3])
+            panel = None
+            if o["api"].startswith("panel_") and panel_def is not None:
+                # the real Panel builds its own matrices - on an object with a past (history before the call)
+                g["hist"], g["hseed"] = hist or "fresh", hseed
+                try:
+                    panel = panel_with_history(panel_def, g["hist"], o["api"], o, hseed)
+                except Exception as ex:
+                    excluded["history %s not executable: %s" % (g["hist"], type(ex).__name__)] += 1
+                    continue
+            e = make_event(0, impl, prob, dict(o), K, B * float(s), g, panel=panel)
+            if e["obs"]["exc"] in ARPACK_FAILURES:
+                excluded["ARPACK broke down / did not converge (solver contract not met): %s" % e["obs"]["exc"]] += 1
+                continue
+            events.append(e)
+    return events, excluded
 
 
 def attach_peers(events):
@@ -491,6 +552,8 @@ def panel_definition(rs, tier, family):
     stack = [[0, 90, -45, 45], [0, 90, 90, 0], [45, -45, 0, 90, 30], [0], [30, -30, -30, 30]][int(rs.randint(0, 5))]
     loads = [(-1., 0., 0.), (0., -1., 0.), (-1., -0.5, 0.), (-1., 0.5, 0.), (0., 0., 1.), (-3., 0., 2.),
              (-200., 0., 0.), (1., -2., 0.)][int(rs.randint(0, 8))]
+    if loads[0] == -200. and m * n > 30:          # super-critical reference load: small panels only (see run_family)
+        loads = (-1., 0., 0.)
     d = dict(model=model, m=m, n=n, a=[1., 2., 0.75][int(rs.randint(0, 3))], b=[0.5, 1., 1.5][int(rs.randint(0, 3))],
              r=[2., 10.][int(rs.randint(0, 2))], stack=stack, plyt=0.125e-3,
              laminaprop=(142.5e9, 8.7e9, 0.28, 5.1e9, 5.1e9, 5.1e9), mu=1.3e3,
@@ -699,7 +762,8 @@ def judge(rep, tag, events, timeout=3000):
         if v[0] == "ok":
             continue
         if v[0].startswith("kf:"):
-            rep.known(v[0][3:], describe(e) + " (literal clause failing: %s)" % v[1])
+            for dev in v[0][3:].split("+"):
+                rep.known(dev, describe(e) + " (literal clause failing: %s)" % v[1])
         else:
             rep.violation("%s: the model's outcome and the observation differ in clause '%s': %s"
                           % (rep.prop, v[1], describe(e)),
@@ -750,7 +814,7 @@ def replay_file(prop, path, build):
     print("replay %s: verdict %s (%s): %s" % (path, v[0], v[1], describe(e)))
     if v[0] == "ok":
         return 0
-    if v[0].startswith("kf:") and v[0][3:] in common.open_deviations(prop):
+    if v[0].startswith("kf:") and all(dv in common.open_deviations(prop) for dv in v[0][3:].split("+")):
         print("KNOWN-FINDING: property=%s [%s]" % (prop, v[0][3:]))
         return 0
     print("VIOLATION property=%s replay=%s" % (prop, path))
@@ -821,74 +885,28 @@ def run_family(prop, family, tier, seed, build, impl=None, skip_mc=False, max_la
     n_lattice = len(events)
     t_a = time.time() - t0 - t_mc
 
-    # ---- direction B: package models and seeded random pairs
+    # ---- direction B: package models and seeded random pairs (group specifications are drawn here, seeded;
+    #      the groups are executed by forked workers: matrix builders, histories and calls are independent)
     rs = np.random.RandomState(seed % (2 ** 31))
     nums = lambda: int(rs.randint(1, 26))
     npanel = 6 if tier == "quick" else 40
     nrandom = 14 if tier == "quick" else 120
     maxsize = 60 if tier == "quick" else 400
 
-    def add_group(K, B, gen, opts_list, panel_def=None):
-        cls = classify(K, B)
-        try:
-            sp = reference_spectrum(K, B, cls)
-        except np.linalg.LinAlgError:
-            excluded["K not positive definite on its active amplitudes"] += 1
-            return
-        if not sp:
-            excluded["no active amplitude"] += 1
-            return
-        if family == "lb" and any(abs(float(x) - 1.0) < 1e-3 for x in sp):
-            excluded["reversed reference load within 1e-3 of critical (KG - K singular)"] += 1
-            return
-        if family == "lb" and any(abs(float(x) * sc + 1.0) < 1e-6 for x in sp for sc in (1, 2, 0.5)):
-            excluded["reference load within 1e-6 of critical (Cayley Ritz value 0, ARPACK purification divides by it)"] += 1
-            return
-        if family == "freq" and min(sp) < 0:
-            excluded["mass matrix not positive semi-definite on the active amplitudes"] += 1
-            return
-        for o in opts_list:
-            for s in o.pop("scales", [Fraction(1)]):
-                prob = dict(n=K.shape[0], cls=cls, sp=sp, s=s)
-                g = dict(gen, scale=float(s), group="%s-s%s" % (gen["group"], s))
-                panel = None
-                g["form"] = FORMS[len(events) % 3]
-                if o["api"].startswith("panel_") and panel_def is not None:
-                    if s != 1:
-                        continue
-                    # the real Panel builds its own matrices - on an object with a past (history before the call)
-                    g["hist"] = o.pop("hist", "fresh")
-                    g["hseed"] = int(rs.randint(0, 2 ** 31 - 1))
-                    try:
-                        panel = panel_with_history(panel_def, g["hist"], o["api"], o, g["hseed"])
-                    except Exception as ex:
-                        excluded["history %s not executable: %s" % (g["hist"], type(ex).__name__)] += 1
-                        continue
-                o.pop("hist", None)
-                next_id[0] += 1
-                e = make_event(next_id[0], impl, prob, dict(o), K, B * float(s), g, panel=panel)
-                if e["obs"]["exc"] in ARPACK_FAILURES:
-                    excluded["ARPACK broke down / did not converge (solver contract not met): %s" % e["obs"]["exc"]] += 1
-                    continue
-                events.append(e)
-                if len(events) % 64 == 0:
-                    gc.freeze()
-                rep.nontrivial(("B", g["group"], o["api"], o["sparse"], o["num"], o["sort"], o["reduced"]))
-
-    def opts_for(n, with_panel):
+    def opts_for(with_panel):
         out = []
         two = [Fraction(1), Fraction(2), Fraction(1, 2)]
+        hseed = lambda: int(rs.randint(0, 2 ** 31 - 1))
+        hist = lambda: HISTORIES[int(rs.randint(1, len(HISTORIES)))]
         if family == "lb":
             k1 = nums()
             out.append(dict(api="lb", sparse=True, num=k1, sort=False, reduced=False, pos=0, scales=two))
             out.append(dict(api="lb", sparse=False, num=min(k1, 3), sort=False, reduced=False, pos=0, scales=[Fraction(1)]))
             out.append(dict(api="lb", sparse=True, num=nums(), sort=False, reduced=False, pos=0, scales=[Fraction(1)]))
             if with_panel:
-                hs = [HISTORIES[int(rs.randint(0, len(HISTORIES)))] for _ in range(3)]
-                out.append(dict(api="panel_lb", sparse=True, num=nums(), sort=False, reduced=False, pos=0, hist="fresh"))
-                out.append(dict(api="panel_lb", sparse=True, num=nums(), sort=False, reduced=False, pos=0, hist=hs[0]))
-                out.append(dict(api="panel_lb", sparse=True, num=nums(), sort=False, reduced=False, pos=0, hist=hs[1]))
-                out.append(dict(api="panel_lb", sparse=False, num=nums(), sort=False, reduced=False, pos=0, hist=hs[2]))
+                for sparse, h in ((True, "fresh"), (True, hist()), (True, hist()), (False, hist())):
+                    out.append(dict(api="panel_lb", sparse=sparse, num=nums(), sort=False, reduced=False, pos=0,
+                                    hist=h, hseed=hseed()))
             else:
                 out.append(dict(api="conecyl_lb", sparse=True, num=nums(), sort=False, reduced=False, pos=3))
         else:
@@ -899,23 +917,16 @@ def run_family(prop, family, tier, seed, build, impl=None, skip_mc=False, max_la
             out.append(dict(api="freq", sparse=False, num=nums(), sort=False, reduced=False, pos=0))
             out.append(dict(api="freq", sparse=False, num=nums(), sort=True, reduced=True, pos=0))
             if with_panel:
-                hs = [HISTORIES[int(rs.randint(0, len(HISTORIES)))] for _ in range(2)]
-                out.append(dict(api="panel_freq", sparse=True, num=nums(), sort=True, reduced=False, pos=0, hist="fresh"))
-                out.append(dict(api="panel_freq", sparse=True, num=nums(), sort=True, reduced=False, pos=0, hist=hs[0]))
-                out.append(dict(api="panel_freq", sparse=False, num=nums(), sort=True, reduced=False, pos=0, hist=hs[1]))
+                for sparse, h in ((True, "fresh"), (True, hist()), (False, hist())):
+                    out.append(dict(api="panel_freq", sparse=sparse, num=nums(), sort=True, reduced=False, pos=0,
+                                    hist=h, hseed=hseed()))
         return out
 
+    specs = []
     for j in range(npanel):
         d = panel_definition(rs, tier, family)
-        try:
-            K, B = panel_matrices(d, family)
-        except Exception as ex:
-            excluded["panel definition rejected by the package: %s" % type(ex).__name__] += 1
-            continue
-        if K.shape[0] > maxsize + 150 and tier == "quick":
-            continue
-        add_group(K, B, dict(kind="panel", family=family, group="P%d" % j, **{"def": d}),
-                  opts_for(K.shape[0], True), panel_def=d)
+        specs.append(dict(gen=dict(kind="panel", family=family, group="P%d" % j, **{"def": d}), opts=opts_for(True),
+                          maxdof=(maxsize + 150) if tier == "quick" else None))
     sizes = [5, 6, 7, 9, 12] + [int(rs.randint(13, maxsize + 1)) for _ in range(nrandom - 5)]
     if tier == "thorough":
         sizes += [400, 399, 250]
@@ -928,11 +939,28 @@ def run_family(prop, family, tier, seed, build, impl=None, skip_mc=False, max_la
         m = n - nnull
         nkonly = int(rs.randint(1, max(2, m // 2))) if (pattern in ("subset", "neither") and m > 4) else 0
         nbonly = int(rs.randint(1, nnull + 1)) if pattern in ("superset", "neither") else 0
-        regime = bool(rs.rand() < 0.7)
+        # outside the regime ARPACK's Cayley/'SM' run on n > 20 mostly ends in ArpackNoConvergence after 10 n
+        # restarts (45 s at n = 300, nothing to judge): keep those inputs small, with a few large ones
+        regime = bool(rs.rand() < 0.7) if (n <= 40 or j % 12 == 5) else True
         rseed = int(rs.randint(0, 2 ** 31 - 1))
-        K, B = random_pair(np.random.RandomState(rseed), family, n, nnull, nkonly, regime, nbonly)
-        add_group(K, B, dict(kind="random", family=family, group="R%d" % j, rseed=rseed, n=n, nnull=nnull,
-                             nkonly=nkonly, nbonly=nbonly, regime=regime), opts_for(n, False))
+        specs.append(dict(gen=dict(kind="random", family=family, group="R%d" % j, rseed=rseed, n=n, nnull=nnull,
+                                   nkonly=nkonly, nbonly=nbonly, regime=regime), opts=opts_for(False), maxdof=None))
+    _FORK.update(impl=impl, family=family, specs=specs)
+    if tier == "quick":
+        parts = [_group_worker(i) for i in range(len(specs))]
+    else:
+        import multiprocessing as mp
+        with mp.get_context("fork").Pool(8) as pool:
+            parts = pool.map(_group_worker, range(len(specs)), chunksize=1)
+    for evs, exc in parts:
+        excluded.update(exc)
+        for e in evs:
+            next_id[0] += 1
+            e["id"] = next_id[0]
+            events.append(e)
+            o = e["o"]
+            rep.nontrivial(("B", e["gen"]["group"], o["api"], o["sparse"], o["num"], o["sort"], o["reduced"],
+                            e["gen"].get("hist")))
     attach_peers(events)
     t_b = time.time() - t0 - t_mc - t_a
 
